@@ -516,6 +516,15 @@ func (c *Ctx) enterBlock(s *State, fr *Frame) bool {
 		}
 	}
 	c.bindRangeIdx(s, fr, b, ord)
+	// built-in invariant of go/ssa's range loops: the hidden index starts at -1 and only increments
+	for phi := range phiVals {
+		if phi.Comment == "rangeindex" {
+			if sc, ok := fr.regs[phi].(Scalar); ok {
+				c.assume(s, c.idxCmp(token.GEQ, sc.T, c.ar.idx(-1)))
+				c.assume(s, c.idxCmp(token.LEQ, sc.T, c.ar.idx(1<<40))) // stays below the slice length, which is <= 2^40
+			}
+		}
+	}
 	// address-taken locals assigned inside the loop
 	for al, cell := range fr.locals {
 		if c.localAssignedInLoop(fr, b, al) {
@@ -865,12 +874,12 @@ func (c *Ctx) step(s *State, fr *Frame, in ssa.Instruction) []*State {
 		if at, isArr := el.Underlying().(*types.Array); isArr {
 			if _, ok := c.ar.sortOfScalar(at.Elem()); !ok || x.Heap {
 				ref := c.allocRef(s)
-				c.zeroFillArray(s, ref, at.Elem())
+				c.zeroFillFixedArray(s, ref, at)
 				fr.regs[x] = Scalar{ref, SRef, x.Type()}
 				return nil
 			}
 		}
-		if !x.Heap || !isAggregate(el) {
+		if !isAggregate(el) {
 			if !x.Heap || c.onlyLocalUses(x) {
 				cell := &localCell{id: len(fr.locals), val: c.zeroVal(s, el)}
 				fr.locals[x] = cell
@@ -884,7 +893,7 @@ func (c *Ctx) step(s *State, fr *Frame, in ssa.Instruction) []*State {
 		}
 		ref := c.allocRef(s)
 		if at, isArr := el.Underlying().(*types.Array); isArr {
-			c.zeroFillArray(s, ref, at.Elem())
+			c.zeroFillFixedArray(s, ref, at)
 			fr.regs[x] = Scalar{ref, SRef, x.Type()}
 		} else if isAggregate(el) {
 			pv := Scalar{ref, SRef, x.Type()}
@@ -1912,4 +1921,18 @@ func (c *Ctx) elemIdx(off, i string) string {
 		}
 	}
 	return fmt.Sprintf("(sidx %s %s)", off, i)
+}
+
+// zeroFillFixedArray: zero-initialise a freshly allocated [N]T. Small arrays of struct elements are initialised
+// element by element (plain stores, no quantified heap definition).
+func (c *Ctx) zeroFillFixedArray(s *State, ref string, at *types.Array) {
+	el := at.Elem()
+	if structOf(el) != nil && at.Len() <= 8 {
+		for i := int64(0); i < at.Len(); i++ {
+			er := fmt.Sprintf("(mkelem %s %s)", ref, c.ar.idx(i))
+			c.storeAt(s, Scalar{er, SRef, types.NewPointer(el)}, el, c.zeroVal(s, el))
+		}
+		return
+	}
+	c.zeroFillArray(s, ref, el)
 }
